@@ -32,6 +32,10 @@ def _is_var_const(t: Any) -> bool:
     return z3.is_const(t) and t.decl().kind() == z3.Z3_OP_UNINTERPRETED and t.decl().name().startswith("v_")
 
 
+def _is_payload_symbol(t: Any) -> bool:
+    return z3.is_const(t) and t.decl().kind() == z3.Z3_OP_UNINTERPRETED and not t.decl().name().startswith("v_")
+
+
 def mentions_variable(t: Any) -> bool:
     seen = set()
     stack = [t]
@@ -80,9 +84,9 @@ def zeval(node: Any, dom: List[Any], ctx: Optional[Ctx] = None) -> Any:
             return z3.If(c < 0, z3.RealVal(-1), z3.If(c > 0, z3.RealVal(1), z3.RealVal(0)))
         if k == "abs":
             return z3.If(c < 0, -c, c)
-        cs = z3.simplify(c)
+        cs = ctx.norm(c) if ctx is not None else z3.simplify(c)
         cv = frac_of(cs)
-        if cv is None and ctx is not None and not mentions_variable(cs):
+        if cv is None and ctx is not None and _is_payload_symbol(cs):
             try:
                 cv = ctx.realize(cs)
             except NeedsBound:
@@ -107,9 +111,10 @@ def zeval(node: Any, dom: List[Any], ctx: Optional[Ctx] = None) -> Any:
         dom.append(r != 0)
         return l / r
     if k == "pow":
-        rs = z3.simplify(r)
+        rs = ctx.norm(r) if ctx is not None else z3.simplify(r)
         ev = frac_of(rs)
-        if ev is None and ctx is not None and not mentions_variable(rs):
+        if ev is None and ctx is not None and _is_payload_symbol(rs):
+            # a bare payload symbol in exponent position has a small integer domain by construction
             try:
                 ev = ctx.realize(rs)
             except NeedsBound:
@@ -133,6 +138,29 @@ def zeval_top(root: Any, ctx: Optional[Ctx] = None):
         r = zeval(root.right, dom, ctx)
         return ("eq", l, r, dom)
     return ("expr", zeval(root, dom, ctx), None, dom)
+
+
+def powr_axioms(*terms: Any) -> List[Any]:
+    """Instances of the mathematical facts powr(b, n) = b^n for small integers n, one set per
+    occurrence of the uninterpreted power (all occurrences are guarded by b > 0 in the domain)."""
+    seen = set()
+    apps = []
+    stack = [t for t in terms if t is not None]
+    while stack:
+        x = stack.pop()
+        if x.get_id() in seen:
+            continue
+        seen.add(x.get_id())
+        if z3.is_app(x) and x.decl().name() == "powr":
+            apps.append(x)
+        stack.extend(x.children())
+    out: List[Any] = []
+    for a in apps:
+        b, e = a.arg(0), a.arg(1)
+        for n in range(-2, 5):
+            val = _ipow(b, n) if n >= 0 else 1 / _ipow(b, -n)
+            out.append(z3.Implies(e == n, a == val))
+    return out
 
 
 def uses_uf(t: Any) -> bool:
